@@ -60,7 +60,7 @@ TEXT = {
               '<: opLt_prep_mp, exact; contains: opContains_prep_mp) and every filter (filterRespectsM_all; json / inspect: '
               'marshal_jrel - the two values marshal to the same text or neither marshals; type: typeName_mp; sort / sort_natural: '
               'insertionSortM_mp, mergeSort_mp - both runs make the same comparisons with the same answers; uniq: canonOrder_mp) '
-              'respect MP up to `unmodelled` (the lemmas named in this parenthesis are helper lemmas of modules that are not audited under their own names - '
+              'respect MP up to `unmodelled` (the lemmas named in this sentence from sprint_mp on are helper lemmas of modules that are not audited under their own names - '
               'Proofs/MapPermStd.lean: sprint_mp, stdOut_respectsM; MapPermEqual: equal_mp, opContains_prep_mp; MapPermCmp: opLt_prep_mp; MapPermSort: '
               'filterRespectsM_all, insertionSortM_mp, mergeSort_mp; MapPermJson: marshal_jrel, typeName_mp; MapPermUniq: canonOrder_mp - checked by the build, '
               'and reached by `#print axioms` only through run_std_map_order_independent, which uses them) - entries are printed and compared in list order, so which part of a value leaves the '
@@ -83,7 +83,7 @@ TEXT = {
               'metamorphic runs and by the correspondence on shuffled entry lists (the model sorts at exactly the two places where the code calls SortedMapKeys); the '
               'whole-render theorem for the standard engine (run_std_map_order_independent) is an '
               'agreement up to `unmodelled`, not an equality. Keys that are neither booleans, numbers nor strings are ordered by '
-              'fmt.Sprint in Go and, when two different such keys print alike, by keySyntax (repaired by 08ac245 + 7d98ddf, 7.3; pointer keys print as addresses): '
+              'fmt.Sprint in Go and, when two different such keys print alike, by keySyntax (repaired by 08ac245 + 7d98ddf, 7.1; pointer keys print as addresses): '
               'outside every theorem and, for a map with two or more of them, outside the model - covered by the implementation-only family of `determ` alone. There is no theorem about '
               'parsed templates, engines or entry points as objects with state - the '
               "metamorphic runs carry that. The clock (date: 'now') is outside the property and never generated."),
